@@ -271,7 +271,13 @@ def rule_from_valid(crate, prop, tier):
         empties = [ev for ev in an.events if ev["k"] == "call" and ev["key"] == "graaf::gen::empty::Empty::empty"]
         if not lits:
             # form (a): Self::empty(order) + add_arc*
-            ok = len(empties) >= 1 and len(adds) >= 1
+            streams = arc_streams(crate, an, fx)
+            all_adds = list(adds)
+            for st in streams:
+                if st["an"] is not an:
+                    all_adds += [ev for ev in st["an"].events if ev["k"] == "call" and ev["key"] in (
+                        "graaf::op::add_arc::AddArc::add_arc", "graaf::op::add_arc_weighted::AddArcWeighted::add_arc_weighted")]
+            ok = len(empties) >= 1 and len(all_adds) >= 1
             o.check(ok, pretty, "form-a", "conversion neither builds a literal nor inserts through add_arc on Self::empty(order)")
             srcarg = an.f["locals"][1]["ty"]
             if srcarg["k"] == "adt" and srcarg["path"] in REPR:
@@ -280,17 +286,15 @@ def rule_from_valid(crate, prop, tier):
                     good = (N[0] == "call" and N[1] == ORD) or N[0] in ("len", "mem")
                     o.check(good and _mentions(N, ("arg", 1)) or _refers_arg1(N), pretty, "order-preserved",
                             "the result is not created with the source's order", ev["span"])
-                # every arc of the source is inserted: loop over source.arcs() is a complete scan
-                arcs_loops = arcs_loops_of(an, fx)
-                if o.check(len(arcs_loops) == 1, pretty, "arcs-loop", "the conversion does not loop over the source's arcs exactly once"):
-                    ev = arcs_loops[0]
-                    item = ("field", ("dc", ev["res"], "Some"), "0")
-                    o.check(complete_scan(an, fx, ev), pretty, "all-arcs", "the loop over the source's arcs can end early", ev["span"])
-                    for ad in adds:
+                # every arc of the source is inserted: the loop / for_each over source.arcs() is a complete scan
+                if o.check(len(streams) == 1, pretty, "arcs-loop", "the conversion does not loop over the source's arcs exactly once"):
+                    st = streams[0]
+                    item = st["item"]
+                    o.check(st["complete"], pretty, "all-arcs", "the loop over the source's arcs can end early", st["span"])
+                    for ad in all_adds:
                         o.check(ad["args"][1] == mk_field(item, "0", 0) and ad["args"][2] == mk_field(item, "1", 1), pretty,
                                 "same-arc", "the inserted arc is not the (tail, head) read from the source", ad["span"])
-                        body = an.cfg.loops.get(an.cfg.loop_of(ev["b"]), set())
-                        o.check(ad["b"] in body, pretty, "insert-in-loop", "add_arc is not inside the arcs loop", ad["span"])
+                        o.check(st["inside"](ad), pretty, "insert-in-loop", "add_arc is not inside the arcs loop", ad["span"])
                         if ad["key"].endswith("add_arc_weighted"):
                             o.check(ad["args"][3][0] == "const" and ad["args"][3][2] == 1, pretty, "weight-one",
                                     "an unweighted arc is converted with a weight other than 1", ad["span"])
@@ -299,6 +303,31 @@ def rule_from_valid(crate, prop, tier):
         b0, i0, lit = lits[0]
         names = [f["name"] for f in prog.adts[T]["fields"]]
         fields = dict(zip(names, lit[3]))
+        srcarg = an.f["locals"][1]["ty"]
+        if "order" in fields and names != ["arcs"] and srcarg["k"] == "adt" and srcarg["path"] in REPR \
+                and _refers_arg1(fields["order"]):
+            # form (d): literal with the source's order; every arc of the source is inserted into a local
+            # container under the three checks u != v, u < order, v < order
+            N = fields["order"]
+            streams = arc_streams(crate, an, fx)
+            if o.check(len(streams) == 1 and streams[0]["an"] is an, pretty, "form-d-arcs-loop",
+                       "the conversion does not loop over the source's arcs exactly once"):
+                st = streams[0]
+                item = st["item"]
+                u, v = mk_field(item, "0", 0), mk_field(item, "1", 1)
+                o.check(st["complete"], pretty, "form-d-all-arcs", "the loop over the source's arcs can end early", st["span"])
+                ins = _local_inserts(an)
+                o.check(len(ins) >= 1, pretty, "form-d-insert", "no arc is inserted")
+                for ev in ins:
+                    E = ev["args"][1]
+                    o.check(E == item or (E[0] == "agg" and tuple(E[3]) == (u, v)), pretty, "form-d-same-arc",
+                            "the inserted arc is not the (tail, head) read from the source", ev["span"])
+                    o.check(st["inside"](ev), pretty, "form-d-insert-in-loop", "the insertion is not inside the arcs loop", ev["span"])
+                    o.check(fx.holds(ev["b"], lambda rel: rel.has(mk_ne(u, v))), pretty, "form-d-no-self-loop",
+                            "an arc is inserted without a dominating tail != head check", ev["span"])
+                    o.check(fx.holds(ev["b"], lambda rel: rel.lt(u, N) and rel.lt(v, N)), pretty, "form-d-in-range",
+                            "an arc is inserted without dominating checks that both endpoints are smaller than the order", ev["span"])
+            continue
         if "order" in fields and names != ["arcs"]:
             # form (c): order = max id + 1 accumulated while inserting
             ordv = fields["order"]
@@ -349,7 +378,18 @@ def rule_from_valid(crate, prop, tier):
         # facts at the loop latch (back edge source)
         latches = [pb for pb, _ in an.cfg.pred[hb] if an.cfg.dominates(hb, pb)]
         for lb in latches:
-            o.check(fx.holds(lb, lambda rel: rel.has(mk_ne(u, v))), pretty, "form-b-no-self-loop",
+            def no_loop(rel):
+                if rel.has(mk_ne(u, v)):
+                    return True
+                # per row: !row.contains(&u)
+                if rowloops is not None:
+                    for a in rel.w:
+                        if a[0] == "false" and a[1][0] == "call" and a[1][1].endswith("BTreeSet::contains") and len(a[1][3]) == 2:
+                            rcv, key = a[1][3]
+                            if _same_row(an, rcv, rowloops) and _value_of_ref(an, key) == u:
+                                return True
+                return False
+            o.check(fx.holds(lb, no_loop), pretty, "form-b-no-self-loop",
                     "an arc of the input is accepted without a tail != head check")
 
             def head_ok(rel):
@@ -368,6 +408,27 @@ def rule_from_valid(crate, prop, tier):
         # non-empty input
         o.check(any(e["k"] == "switch" or e["k"] == "assert" for e in an.events), pretty, "form-b-has-checks", "no checks at all")
     return o.report(floors={"From impls into representations": (o.instances, 25)})
+
+
+def arc_streams(crate, an, fx):
+    """ways in which the body visits every arc of a digraph: `for arc in d.arcs()` loops and
+    `d.arcs().for_each(closure)`; each with the term of the visited arc and the body it is visible in"""
+    out = []
+    for ev in arcs_loops_of(an, fx):
+        body = an.cfg.loops.get(an.cfg.loop_of(ev["b"]), set())
+        out.append({"an": an, "item": ("field", ("dc", ev["res"], "Some"), "0"), "complete": complete_scan(an, fx, ev),
+                    "span": ev["span"], "inside": (lambda e, body=body: e["b"] in body), "ev": ev})
+    results = {ev["res"] for ev in an.events if ev["k"] == "call" and ev["key"] == "graaf::op::arcs::Arcs::arcs"}
+    for ev in an.events:
+        if ev["k"] == "call" and ev["key"] == "core::iter::traits::iterator::Iterator::for_each" and len(ev["args"]) == 2:
+            src, clo = ev["args"]
+            if src in results and clo[0] == "agg" and clo[1] == "closure":
+                can = crate.an(clo[2])
+                cfx = crate.fx(clo[2])
+                # a closure that can only return normally or panic visits every item
+                out.append({"an": can, "item": ("arg", 2), "complete": True, "span": ev["span"],
+                            "inside": (lambda e, can=can: e in can.events), "ev": ev})
+    return out
 
 
 def arcs_loops_of(an, fx):
@@ -391,10 +452,22 @@ def nested_row_loops(an, fx):
     nexts = [ev for ev in an.events if ev["k"] == "call" and ev["key"] == ITER_NEXT]
     for outer in nexts:
         d = fx.iter_desc(outer)
-        if not (d and d != "CYCLE" and d[0] == "call" and d[1] == "core::iter::traits::iterator::Iterator::enumerate"):
+        if not (d and d != "CYCLE"):
             continue
         oitem = ("field", ("dc", outer["res"], "Some"), "0")
-        u = mk_field(oitem, "0", 0)
+        if d[0] == "call" and d[1] == "core::iter::traits::iterator::Iterator::enumerate":
+            u = mk_field(oitem, "0", 0)
+        elif (d[0] == "at" and d[1].startswith("L")) or (d[0] == "call" and d[1].endswith("BTreeMap::iter")):
+            # `for (u, heads) in &map`: the key is read through the item's first component
+            kp = mk_field(oitem, "0", 0)
+            u = None
+            for (var, ver), val in an.term_of.items():
+                if val[0] == "mem" and val[3] == kp:
+                    u = val
+            if u is None:
+                u = ("deref", kp)
+        else:
+            continue
         row = mk_field(oitem, "1", 1)
         obody = an.cfg.loops.get(an.cfg.loop_of(outer["b"]), set())
         for inner in nexts:
@@ -413,8 +486,31 @@ def nested_row_loops(an, fx):
                 for (var, ver), val in an.term_of.items():
                     if val[0] == "mem" and val[3] == iitem:
                         v = val
+                if v is None and di and di != "CYCLE" and not (di[0] == "call" and di[1].endswith("::copied")):
+                    v = ("deref", iitem)     # items are references; the id is what they point to
                 return outer, inner, u, v if v is not None else iitem
     return None
+
+
+def _value_of_ref(an, t):
+    """value behind a reference-to-local argument of a pure call"""
+    if t[0] == "at" and t[2] is None:
+        v = an.term_of.get((t[1], t[3]))
+        if v is not None:
+            return v
+    return t
+
+
+def _same_row(an, rcv, rowloops):
+    """the receiver of contains() is the row of the current outer-loop item"""
+    outer = rowloops[0]
+    row = mk_field(("field", ("dc", outer["res"], "Some"), "0"), "1", 1)
+    t = rcv
+    if t == row:
+        return True
+    if t[0] == "at" and t[2] is None:
+        return False
+    return _mentions(t, row)
 
 
 def must_pass(an, ok_edge, ok_block):
